@@ -18,6 +18,12 @@ macro_rules! opaque {
 opaque!(DesiredFilterNotSupported, AmqpError, SourceS, TargetS, TargetArch, Props, Unsettled, SessionStopReason, SenderAttachExchange, ReceiverSettleMode, VerifyErr);
 //@@ type file=fe2o3-amqp/src/link/mod.rs kind=enum name=ReceiverAttachExchange
 //@@ end
+impl ReceiverAttachExchange {
+//@@ fn file=fe2o3-amqp/src/link/mod.rs impl=`impl ReceiverAttachExchange` name=complete_or id=ReceiverAttachExchange::complete_or
+//@@ spec
+    ensures self is Complete ==> r is Ok, !(self is Complete) ==> r == Err::<(), E>(err),       // [C13.attach.only-a-complete-exchange-is-an-attached-link] a plain attach (not a resumption) succeeds only when the exchange completed: an exchange that found unsettled deliveries to resume is the error the caller passes, not a silently attached link (what unit WIRING assumes of it)
+//@@ end
+}
 impl Unsettled {
     /// the number of deliveries the peer's attach lists as unsettled
     pub uninterp spec fn count(&self) -> nat;
